@@ -159,7 +159,7 @@ import (
 )
 
 func TestWorker(t *testing.T) {
-	engine.WorkerMain(t, &engine.Binding{Types: progs.Types})
+	engine.WorkerMain(t, &engine.Binding{Types: progs.Types, Ifaces: progs.Ifaces})
 }
 `
 
@@ -209,7 +209,7 @@ import (
 )
 
 func TestWorker(t *testing.T) {
-	engine.WorkerMain(t, &engine.Binding{Types: progs.Types, Lin: &engine.LinBinding{
+	engine.WorkerMain(t, &engine.Binding{Types: progs.Types, Ifaces: progs.Ifaces, Lin: &engine.LinBinding{
 		NewMap:  func() engine.LinMap { return linsync2.New[string, int]() },
 		NewSet:  func() engine.LinSet { return linlist.NewConcurrentSets() },
 		NewGSet: func() engine.LinSet { return linlist.NewGenericConcurrentSets[string]() },
